@@ -14,6 +14,8 @@
 //	ifaceeq  x == y, x != y where both operands have type interface{} (uncomparable dynamic values panic)
 //	assert-call   errorutil.Assert*(...) (panics when the condition does not hold)
 //	panic    an explicit call of panic
+//	check    (not a partial operation) a condition tested by a Validate method or by sinkDetailRuntime.Eval: a fact the
+//	         discharge of an `index` site on AST children may rely on
 //
 // A site is identified by (file, enclosing function, kind, operation text, guards) — no line
 // numbers.  `guards` are the conditions that dominate the operation syntactically (enclosing
@@ -234,6 +236,8 @@ type scanner struct {
 	fn    string
 	stack []ast.Node
 	sites []site
+
+	curIdents map[string]bool // identifiers of the operation whose guards are being collected
 }
 
 func scanFile(fset *token.FileSet, info *types.Info, f *ast.File, name string) []site {
@@ -248,6 +252,19 @@ func scanFile(fset *token.FileSet, info *types.Info, f *ast.File, name string) [
 			if fd.Body != nil {
 				sc.stack = nil
 				sc.walk(fd.Body)
+				if fd.Name.Name == "Validate" || sc.fn == "(*sinkDetailRuntime).Eval" {
+					// the checks a Validate method performs are facts other sites rely on
+					ast.Inspect(fd.Body, func(x ast.Node) bool {
+						if is, ok := x.(*ast.IfStmt); ok {
+							op := text(fset, is.Cond)
+							if is.Init != nil {
+								op = text(fset, is.Init) + "; " + op
+							}
+							sc.sites = append(sc.sites, site{File: name, Func: sc.fn, Kind: "check", Op: op})
+						}
+						return true
+					})
+				}
 			}
 		case *ast.GenDecl:
 			sc.fn = "<package level>"
@@ -333,8 +350,13 @@ func (sc *scanner) visit(x ast.Node) {
 		}
 		switch t := tv.Type.Underlying().(type) {
 		case *types.Map:
+			// only a key whose *static* type is an interface can hold an unhashable value
 			if _, isIface := t.Key().Underlying().(*types.Interface); isIface {
-				sc.add("mapkey", e, []ast.Expr{e.Index})
+				if itv, ok := sc.info.Types[e.Index]; ok && itv.Value == nil && itv.Type != nil {
+					if _, keyIface := itv.Type.Underlying().(*types.Interface); keyIface {
+						sc.add("mapkey", e, []ast.Expr{e.Index})
+					}
+				}
 			}
 		case *types.Slice, *types.Basic:
 			sc.add("index", e, []ast.Expr{e.X, e.Index})
@@ -416,24 +438,14 @@ func (sc *scanner) words(operands []ast.Expr) (idents map[string]bool, texts []s
 		if tv, ok := sc.info.Types[o]; ok && tv.Value != nil {
 			continue
 		}
-		t := text(sc.fset, o)
 		if _, isIdent := o.(*ast.Ident); !isIdent {
-			texts = append(texts, t)
+			texts = append(texts, text(sc.fset, o))
 		}
 		ast.Inspect(o, func(x ast.Node) bool {
 			switch v := x.(type) {
 			case *ast.SelectorExpr:
-				// only the root of a selector chain counts as an identifier word
-				ast.Inspect(v.X, func(y ast.Node) bool {
-					if id, ok := y.(*ast.Ident); ok && !trivial[id.Name] {
-						if _, isSel := v.X.(*ast.Ident); isSel && len(t) > len(id.Name) {
-							// rt.node.Children: the receiver alone is too weak a link
-							return true
-						}
-						idents[id.Name] = true
-					}
-					return true
-				})
+				// rt.node.Children: the receiver alone is too weak a link; the whole
+				// selector text is matched instead
 				return false
 			case *ast.Ident:
 				if !trivial[v.Name] {
@@ -479,10 +491,16 @@ func terminates(b *ast.BlockStmt) bool {
 	return false
 }
 
+// ifText renders the condition of an if statement; the init statement is part of the guard
+// only when it mentions one of the identifiers the operation uses (v, ok := x.(T); ok /
+// err = check(x); err != nil).
 func (sc *scanner) ifText(s *ast.IfStmt) string {
 	c := text(sc.fset, s.Cond)
 	if s.Init != nil {
-		c = text(sc.fset, s.Init) + "; " + c
+		it := text(sc.fset, s.Init)
+		if mentions(it, sc.curIdents, nil) {
+			return it + "; " + c
+		}
 	}
 	return c
 }
@@ -566,6 +584,7 @@ func (sc *scanner) earlyExits(list []ast.Stmt, child ast.Node) []string {
 
 func (sc *scanner) addText(kind, op string, n ast.Node, operands []ast.Expr) {
 	idents, texts := sc.words(operands)
+	sc.curIdents = idents
 	var gs []string
 	seen := map[string]bool{}
 	for _, g := range sc.guards(n) {
